@@ -387,7 +387,13 @@ pub fn link_cores(cores: Vec<CoreUnit>) -> Result<LinkOutput, CompilationError> 
     }
 
     let gensym = Gensym::new();
-    let (mono, monoenv) = mono::mono(genv.clone(), linked.clone());
+    let (mono, monoenv, unbounded) = mono::mono_with_diagnostics(genv.clone(), linked.clone());
+    if !unbounded.is_empty() {
+        return Err(compile_error(format!(
+            "cannot specialise {}: it is instantiated at ever larger types (polymorphic recursion is not supported)",
+            unbounded.join(", ")
+        )));
+    }
     let (lifted, liftenv) = lift::lambda_lift(monoenv.clone(), &gensym, mono.clone());
     let (anf, anfenv) = crate::anf::anf_file(liftenv.clone(), &gensym, lifted.clone());
     let (go, goenv) = go::compile::go_file(anfenv.clone(), &gensym, anf.clone());
